@@ -20,7 +20,8 @@
       bar_evs           the estimator calls this history makes (position limiter included)
       bar_points        the user-visible (position, instant) pairs of the calls of a history
     Naming: [_refuted] = the clause as written is false on the faithful model (witness);
-    [_partial] = the statement covers less than the property's clause (docs/C09.md says what).
+    [_partial] = the statement covers less than the property's clause (docs/C09.md says what);
+    [_pre_56491a5] = regression statement about the function as it was before that fix: commit.
     The allowed axioms are the four of Coq's classical real numbers. *)
 From IndModel Require Import Base Estimator.
 From IndGen Require Import Constants.
@@ -43,59 +44,76 @@ Proof. exact denominator_pos. Qed.
 Print Assumptions C09_denominator_pos.
 
 (** ** 1. Finite and non-negative
-    The property's domain is "strictly after the bar's creation or last reset".  The theorems hold
-    on [start_time < now], i.e. outside the class
-       Known_restart_instant = { now = instant of the estimator's last restart },
-    which besides creation / reset* contains the instant of a RECORDED BACKWARDS SEEK: there the
-    clause is refuted ([C09_bar_rewind_instant_refuted], [C09_f64_rewind_instant_nan_refuted]). *)
-(** estimator level: every history of record / restart calls under a monotonic clock, every query
-    instant not before the last call and strictly after the last restart *)
+    Since fix 56491a5 (steps_per_second returns 0.0 when no time has passed since the restart) the
+    clause holds at EVERY query instant not before the last call, the instant of a restart
+    (creation, reset*, recorded backwards seek) included; the hypothesis "strictly after the last
+    restart" of the earlier statements is gone.  The only divisions executed are by the
+    normaliser 1 - W(now - restart), which is positive whenever it is not zero. *)
+(** estimator level: every history of record / restart calls under a monotonic clock *)
 Theorem C09_finite_nonneg : forall evs t0 now,
   let e := est_run evs (est_new Rar t0) in
   hist_ok evs (est_new Rar t0) ->
-  (prev_time e <= now)%N -> (start_time e < now)%N ->
-  0 < 1 - W (secs (now - start_time e)) /\ 0 <= est_sps Rar e now.
+  (prev_time e <= now)%N ->
+  0 <= est_sps Rar e now /\
+  ((start_time e < now)%N -> 0 < 1 - W (secs (now - start_time e))) /\
+  ((now <= start_time e)%N -> est_sps Rar e now = 0).
 Proof. exact finite_nonneg. Qed.
 Print Assumptions C09_finite_nonneg.
 
 (** bar level: every history of public calls (set_position, inc, dec, update, tick, set_length,
-    unset_length, reset_eta, reset_elapsed, reset, finish, abandon, clock advances); both
-    denominators positive, per_sec >= 0 (finished bars included), eta() and duration() return
-    (Duration::new does not panic) *)
+    unset_length, reset_eta, reset_elapsed, reset, finish, abandon, clock advances): eta() and
+    duration() return (Duration::new does not panic); per_sec >= 0 for a bar in progress (= 0 at
+    the restart instant), and for a finished bar strictly after its start (pos / elapsed) *)
 Theorem C09_bar_finite_nonneg : forall len t0 ops, no_wrap ops t0 ->
   let b := fst (run_state Rar ops t0 (bar_new Rar len t0)) in
   let now := snd (run_state Rar ops t0 (bar_new Rar len t0)) in
-  (start_time (b_est b) < now)%N ->
-  0 < 1 - W (secs (now - start_time (b_est b))) /\
-  0 < secs (now - b_started b) /\
-  0 <= bar_per_sec Rar b now /\
   (exists d, bar_eta Rar b now = Some d) /\
-  (exists d, bar_duration Rar b now = Some d).
+  (exists d, bar_duration Rar b now = Some d) /\
+  (b_done b = false -> 0 <= bar_per_sec Rar b now) /\
+  (b_done b = false -> (now <= start_time (b_est b))%N -> bar_per_sec Rar b now = 0) /\
+  ((b_started b < now)%N -> 0 < secs (now - b_started b) /\ 0 <= bar_per_sec Rar b now) /\
+  ((start_time (b_est b) < now)%N -> 0 < 1 - W (secs (now - start_time (b_est b)))).
 Proof. exact bar_finite_nonneg. Qed.
 Print Assumptions C09_bar_finite_nonneg.
 
-(** REFUTED at the instant of a recorded backwards seek, which is strictly after creation and
-    has no reset before it: the normaliser 1 - W(0) is zero (division by zero).  History of
-    public calls: create at 0; update(set_pos 10) at 1 s; update(set_pos 5) at 2 s; query at 2 s *)
-Theorem C09_bar_rewind_instant_refuted :
+(** REGRESSION statements about the code before fix 56491a5 ([est_sps_pre_56491a5], the same
+    function without the early return).  At the instant of a recorded backwards seek - strictly
+    after creation, no reset before it - the old function divides by the normaliser 1 - W(0) = 0;
+    the current one reports 0.  History of public calls: create at 0; update(set_pos 10) at 1 s;
+    update(set_pos 5) at 2 s; query at 2 s *)
+Theorem C09_bar_rewind_instant_pre_56491a5 :
   exists len t0 ops,
     no_wrap ops t0 /\ forallb (fun o => negb (is_reset_op o)) ops = true /\
     let b := fst (run_state Rar ops t0 (bar_new Rar len t0)) in
     let now := snd (run_state Rar ops t0 (bar_new Rar len t0)) in
     b_done b = false /\ (t0 < now)%N /\ (b_started b < now)%N /\
-    1 - W (secs (now - start_time (b_est b))) = 0.
-Proof. exact bar_rewind_instant_refuted. Qed.
-Print Assumptions C09_bar_rewind_instant_refuted.
+    1 - W (secs (now - start_time (b_est b))) = 0 /\
+    est_sps_pre_56491a5 Rar (b_est b) now =
+      sps_R (sm (b_est b)) (dsm (b_est b)) (W (secs (now - prev_time (b_est b)))) 0 /\
+    bar_per_sec Rar b now = 0.
+Proof. exact bar_rewind_instant_pre_56491a5. Qed.
+Print Assumptions C09_bar_rewind_instant_pre_56491a5.
 
 (** the same history on the binary64 (Flocq) instance, with the values 0.1f64.powf returns for the
-    two exponents that occur: per_sec() is NaN (eta 0, duration = elapsed = 2 s) *)
-Theorem C09_f64_rewind_instant_nan_refuted :
+    two exponents that occur: the old function yields NaN, the current one +0.0, and the whole
+    observation is (per_sec 0.0, eta 0, duration = elapsed = 2 s) *)
+Theorem C09_f64_rewind_instant_nan_pre_56491a5 :
   exists tbl len t0 ops,
     table_ok tbl = true /\ forallb (fun o => negb (is_reset_op o)) ops = true /\
-    run_obs (FL.ar tbl) FL.to_bits len t0 ops =
-      [(NAN_BITS, Some 0, Some 2000000000, 2000000000)%N].
-Proof. exact fl_rewind_instant_nan. Qed.
-Print Assumptions C09_f64_rewind_instant_nan_refuted.
+    let b := fst (run_state (FL.ar tbl) ops t0 (bar_new (FL.ar tbl) len t0)) in
+    let now := snd (run_state (FL.ar tbl) ops t0 (bar_new (FL.ar tbl) len t0)) in
+    (t0 < now)%N /\ b_done b = false /\
+    FL.to_bits (est_sps_pre_56491a5 (FL.ar tbl) (b_est b) now) = NAN_BITS /\
+    FL.to_bits (est_sps (FL.ar tbl) (b_est b) now) = 0%N /\
+    run_obs (FL.ar tbl) FL.to_bits len t0 ops = [(0, Some 0, Some 2000000000, 2000000000)%N].
+Proof. exact fl_rewind_instant_pre_56491a5. Qed.
+Print Assumptions C09_f64_rewind_instant_nan_pre_56491a5.
+
+(** strictly after the restart the two functions agree (over R) *)
+Theorem C09_fix_56491a5_changes_restart_instant_only : forall (e : est R) now,
+  (start_time e < now)%N -> est_sps Rar e now = est_sps_pre_56491a5 Rar e now.
+Proof. exact est_sps_old_new. Qed.
+Print Assumptions C09_fix_56491a5_changes_restart_instant_only.
 
 (** the observations a run records are exactly queries after prefixes of the history, so the
     bar-level theorems (stated for the query after an arbitrary history) cover every observation;
@@ -295,7 +313,8 @@ Proof. exact stall_rise_iff. Qed.
 Print Assumptions C09_stall_rise_iff.
 
 (** [stall_rate] is what a query reports *)
-Theorem C09_stall_rate_is_query : forall (e : est R) now, wf e -> (prev_time e <= now)%N ->
+Theorem C09_stall_rate_is_query : forall (e : est R) now,
+  wf e -> (prev_time e <= now)%N -> (start_time e < now)%N ->
   est_sps Rar e now = stall_rate e (secs (now - prev_time e)).
 Proof. exact stall_rate_spec. Qed.
 Print Assumptions C09_stall_rate_is_query.
@@ -477,13 +496,12 @@ Print Assumptions C09_f64_rate_zero_when_weight_zero.
     For the Flocq binary64 instance with ANY powf that returns weights ([pow_ok]: finite values in
     [0,1], below 1 for exponents >= 2^-34), arguments that fit u64 as in the Rust code, no
     assumption on the clock: per_sec() is a finite, non-negative binary64 number (no NaN, no
-    infinity, no negative zero-crossing) strictly after the last restart of the estimator /
-    strictly after the start of a finished bar.  The proof carries the invariant
+    infinity) at EVERY query instant - the instant of a restart included since fix 56491a5 - and
+    for a finished bar strictly after its start.  The proof carries the invariant
     smoothed <= 2^95, double_smoothed <= 2^149 through every record. *)
 Theorem C09_f64_finite_nonneg : forall p evs t0 now,
   pow_ok p -> Forall ev_u64 evs -> (now < U64)%N ->
   let e := est_runA (FL.arp p) evs (est_new (FL.arp p) t0) in
-  (start_time e < now)%N ->
   is_finite (est_sps (FL.arp p) e now) = true /\ 0 <= B2R (est_sps (FL.arp p) e now).
 Proof. exact fl_history_finite_nonneg. Qed.
 Print Assumptions C09_f64_finite_nonneg.
@@ -494,7 +512,7 @@ Theorem C09_f64_bar_finite_nonneg : forall p len t0 ops,
   pow_ok p -> (t0 < U64)%N -> (forall l, len = Some l -> (l < U64)%N) -> Forall op_u64 ops ->
   let b := fst (run_state (FL.arp p) ops t0 (bar_new (FL.arp p) len t0)) in
   let now := snd (run_state (FL.arp p) ops t0 (bar_new (FL.arp p) len t0)) in
-  (if b_done b then (b_started b < now)%N else (start_time (b_est b) < now)%N) ->
+  (b_done b = true -> (b_started b < now)%N) ->
   is_finite (bar_per_sec (FL.arp p) b now) = true /\ 0 <= B2R (bar_per_sec (FL.arp p) b now).
 Proof. exact fl_bar_finite_nonneg. Qed.
 Print Assumptions C09_f64_bar_finite_nonneg.
